@@ -361,6 +361,36 @@ impl Ctx {
         ok
     }
 
+    /// Draw `n` tapes from the proptest strategy (for engines whose cases are too expensive to be
+    /// driven one at a time: generated crates compiled in batches). Shrinking is done by the caller.
+    pub fn draw_tapes(&mut self, engine: &str, n: usize, tape_len: usize) -> Vec<Vec<u32>> {
+        let seed = splitmix(self.seed ^ fnv1a(format!("{}/{}", self.prop, engine).as_bytes()));
+        let mut seed_bytes = [0u8; 32];
+        for i in 0..4 {
+            seed_bytes[i * 8..i * 8 + 8].copy_from_slice(&splitmix(seed.wrapping_add(i as u64)).to_le_bytes());
+        }
+        let config = Config {
+            cases: n as u32,
+            failure_persistence: None,
+            ..Config::default()
+        };
+        let rng = TestRng::from_seed(RngAlgorithm::ChaCha, &seed_bytes);
+        let mut runner = TestRunner::new_with_rng(config, rng);
+        // generated crates want substantial cases: tapes are at least half of the maximal length
+        let strat = proptest::collection::vec(proptest::num::u32::ANY, tape_len / 2..=tape_len);
+        let mut out = vec![];
+        for _ in 0..n {
+            match strat.new_tree(&mut runner) {
+                Ok(t) => out.push(t.current()),
+                Err(e) => {
+                    self.harness_error(format!("proptest new_tree: {e}"));
+                    break;
+                }
+            }
+        }
+        out
+    }
+
     /// replay a tape stored in a replay file through `f` (no proptest involved)
     pub fn replay_tape<F>(&mut self, engine: &str, path: &Path, f: F) -> bool
     where
@@ -428,8 +458,15 @@ impl Ctx {
             "wall_s": (wall * 1000.0).round() / 1000.0,
             "violations": self.violations,
         });
+        let ev = if std::env::var("VERIF_STAGE").ok().as_deref() == Some("2") && self.replay.is_none() {
+            merge_stage(&self.prop, ev)
+        } else {
+            ev
+        };
         if self.replay.is_none() {
-            let dir = Path::new(VERIF_ROOT).join("evidence");
+            // VERIF_EVIDENCE_DIR: scratch location for runs that are not the registered check
+            // (mutant runs, seed sweeps), so that they do not overwrite the real evidence
+            let dir = std::env::var("VERIF_EVIDENCE_DIR").map(PathBuf::from).unwrap_or_else(|_| Path::new(VERIF_ROOT).join("evidence"));
             let _ = std::fs::create_dir_all(&dir);
             let path = dir.join(format!("{}.json", self.prop));
             let tmp = dir.join(format!(".{}.json.tmp", self.prop));
@@ -468,6 +505,49 @@ impl Ctx {
         }
         std::process::exit(0);
     }
+}
+
+/// second stage of a two-stage check (parser level, then generated crates): fold the evidence the
+/// first stage wrote for the same property into this stage's evidence
+fn merge_stage(prop: &str, mut ev: Value) -> Value {
+    let dir = std::env::var("VERIF_EVIDENCE_DIR").map(PathBuf::from).unwrap_or_else(|_| Path::new(VERIF_ROOT).join("evidence"));
+    let path = dir.join(format!("{prop}.json"));
+    let Ok(txt) = std::fs::read_to_string(&path) else { return ev };
+    let Ok(prev) = serde_json::from_str::<Value>(&txt) else { return ev };
+    if prev["tier"] != ev["tier"] || prev["seed"] != ev["seed"] {
+        return ev;
+    }
+    let sum = |a: &Value, b: &Value| json!(a.as_u64().unwrap_or(0) + b.as_u64().unwrap_or(0));
+    let pc = prev["coverage"].clone();
+    let cc = ev["coverage"].clone();
+    let mut cov = serde_json::Map::new();
+    for k in ["evaluations", "distinct_nontrivial", "distinct_cases", "observations_compared"] {
+        cov.insert(k.into(), sum(&pc[k], &cc[k]));
+    }
+    cov.insert(
+        "rule".into(),
+        json!(format!("STAGE 1 (parser level): {} || STAGE 2 (generated crates): {}", pc["rule"].as_str().unwrap_or(""), cc["rule"].as_str().unwrap_or(""))),
+    );
+    let mut samples: Vec<Value> = pc["samples"].as_array().cloned().unwrap_or_default();
+    samples.truncate(3);
+    samples.extend(cc["samples"].as_array().cloned().unwrap_or_default().into_iter().take(3));
+    cov.insert("samples".into(), json!(samples));
+    if let Some(e) = pc.get("exhaustive") {
+        cov.insert("exhaustive".into(), e.clone());
+    }
+    cov.insert("stage1".into(), pc);
+    cov.insert("stage2".into(), cc);
+    ev["coverage"] = Value::Object(cov);
+    ev["wall_s"] = json!(prev["wall_s"].as_f64().unwrap_or(0.0) + ev["wall_s"].as_f64().unwrap_or(0.0));
+    ev["violations"] = sum(&prev["violations"], &ev["violations"]);
+    let mut assumptions: Vec<Value> = prev["assumptions"].as_array().cloned().unwrap_or_default();
+    for a in ev["assumptions"].as_array().cloned().unwrap_or_default() {
+        if !assumptions.contains(&a) {
+            assumptions.push(a);
+        }
+    }
+    ev["assumptions"] = json!(assumptions);
+    ev
 }
 
 pub fn hash_str(s: &str) -> u64 {
